@@ -320,7 +320,20 @@ func (g *Gen) prebindGhosts() {
 			if g.cellGhosts == nil {
 				g.cellGhosts = map[string]types.Type{}
 			}
-			g.cellGhosts[gh.Name] = t
+			if _, seen := g.cellGhosts[gh.Name]; !seen {
+				g.cellGhosts[gh.Name] = t
+				if lit, ok := gh.Expr.(*EBool); ok {
+					// `ghost x after F#N = true` starts out false (and vice versa): x says "F#N has been executed"
+					srt := "(Array Int Bool)"
+					cur := g.heapGet(g.heap, "ghost:"+gh.Name, srt)
+					g.heap = g.heap.clone()
+					init := "true"
+					if lit.V {
+						init = "false"
+					}
+					g.heapSet(g.heap, "ghost:"+gh.Name, srt, "(store "+cur+" 0 "+init+")")
+				}
+			}
 			continue
 		}
 		func() {
@@ -1187,6 +1200,25 @@ func (g *Gen) endHeapAtHeader(li *loopInfo) *Heap {
 		return h
 	}
 	return g.heap
+}
+
+// relockHeap: heap of a map type listed in `track-locks relock-havoc`.
+func (g *Gen) relockHeap(n string) bool {
+	if g.fc == nil || !strings.HasPrefix(n, "map:") {
+		return false
+	}
+	norm := func(s string) string {
+		if curPkgName != "" {
+			s = strings.ReplaceAll(s, curPkgName+".", "")
+		}
+		return strings.ReplaceAll(s, " ", "")
+	}
+	for _, u := range g.fc.RelockHavoc {
+		if strings.HasPrefix(norm(n), "map:"+norm(u)+"#") {
+			return true
+		}
+	}
+	return false
 }
 
 // unescapedHeap: heap of a map type declared `assume unescaped` in the unit's contract (package qualifiers of the
